@@ -236,12 +236,18 @@ class Formatter(ABC):
 
         _fmt = cls.gen_format(_fmt)
         if _search := re.search(rf"^{_fmt}\Z", _value):
-            return cls(
-                **cls.__init_parsing__(
-                    cls.__validate_format(_search.groupdict()),
-                    set_strict_mode=strict,
+            try:
+                return cls(
+                    **cls.__init_parsing__(
+                        cls.__validate_format(_search.groupdict()),
+                        set_strict_mode=strict,
+                    )
                 )
-            )
+            except (ValueError, ArithmeticError) as err:
+                raise FormatterValueError(
+                    f"value {_value!r} match with format {_fmt!r} but it "
+                    f"does not valid: {err}"
+                ) from err
 
         raise FormatterValueError(
             f"value {_value!r} does not match with format {_fmt!r}"
